@@ -557,8 +557,8 @@ def main(tier, seed, replay, jobs, scale):
         import json
         cases = [tuple(json.load(open(replay))["replay"]["case"])]
     else:
-        ns = int((24 if tier == "quick" else 48) * scale)
-        nf = int((18 if tier == "quick" else 36) * scale)
+        ns = int((24 if tier == "quick" else 200) * scale)
+        nf = int((18 if tier == "quick" else 150) * scale)
         cases = [("sync", seed, i, tier) for i in range(ns)] + [("fix", seed, i, tier) for i in range(nf)]
     results = list(par.run_cases(dispatch, cases, jobs))
     par.absorb(run, results)
